@@ -203,7 +203,7 @@ def run(R, ctx):
     # (these never go through the Lean driver, so they are cheap: ~250 schedules x 300 events per second)
     extra_sched = 1500 if R.tier == "quick" else 40000
     extra_events = 0
-    extra_profiles = ("prevote-reorder", "prevote-partition", "member-paged", "member-paged-partition")
+    extra_profiles = ("prevote-reorder", "prevote-partition", "member-paged", "member-paged-partition", "member-batch-partition")
     for prof in extra_profiles:
         l2, se2, rc2 = core.run_harness(binary, "raftsim", [], args=["-schedules", str(extra_sched), "-events", "300", "-seed", str(R.seed * 13 + 5),
                                                                     "-profile", prof, "-stageA", "0"])
@@ -215,7 +215,7 @@ def run(R, ctx):
     R.extra["safety_only_batches"] = dict(
         schedules=len(extra_profiles) * extra_sched, events=extra_events, profiles=list(extra_profiles),
         note="PreVote (prevote-*) and membership growth from a single voter with committed entries handed to the application one per Ready, the "
-             "application handling one Ready per event and restarted nodes campaigning at once (member-paged*): outside the lock-step model, judged by "
+             "application handling one Ready per event and restarted nodes campaigning at once (member-paged*), proposal messages carrying several membership changes (member-batch-partition): outside the lock-step model, judged by "
              "the safety predicates on the implementation after every event")
 
     # ---- lock-step: every event replayed through RS.handle
